@@ -10,8 +10,8 @@ EXTENDS TraceBase, ObjOps
 VARIABLES tid, verdict
 vars == <<tid, verdict>>
 
-ListActs == {"append", "insert0", "share", "pop", "clear", "relist"}
-AttrActs == {"setattr", "delattr"}
+ListActs == {"append", "insert0", "insert", "setitem", "extend2", "share", "pop", "clear", "relist"}
+AttrActs == {"setattr", "delattr", "update"}
 StepClauses(hb, rb, st) ==
   LET pred == Apply(hb, rb, st.a)
       same == View(st.heap, st.roots) = View(pred.h, pred.roots) /\ st.exc = "none"
